@@ -55,6 +55,20 @@ pub fn systemtime_to_datetime(tz: &FixedOffset, st: &SystemTime) -> DateTimeL { 
 //@cut type kind=enum path=src/common.rs name=FileProcessingResult derives=
 //@end
 pub type FileProcessingResultBlockZero = FileProcessingResult<Error>;
+impl<E> FileProcessingResult<E> {
+//@cut fn path=src/common.rs impl=FileProcessingResult name=is_ok ret=r
+//@spec
+    ensures r == (*self is FileOk)
+//@end
+//@cut fn path=src/common.rs impl=FileProcessingResult name=is_stub ret=r
+//@spec
+    ensures r == (*self is FileErrStub)
+//@end
+//@cut fn path=src/common.rs impl=FileProcessingResult name=has_err ret=r
+//@spec
+    ensures r == (*self is FileErrIo || *self is FileErrIoPath)
+//@end
+}
 //@cut type kind=enum path=src/common.rs name=ResultS3 derives=
 //@end
 //@cut type kind=const path=src/bin/s4.rs name=FILEERRSTUB
@@ -260,15 +274,23 @@ pub open spec fn model_done(l: Seq<ChanDatum>, m: Seq<SL>, a: Option<int>, b: Op
     let ghost a = syslogproc.a();
     let ghost b = syslogproc.b();
     let ghost sp0 = syslogproc;
-    proof { assert(m == file_model(thread_init_data.0) && a == oi(thread_init_data.5) && b == oi(thread_init_data.6)); }
-//@before "return;" 1
-            proof { lemma_no_msgs(chan_send_dt.log().drop_last(), file_model(thread_init_data.0), oi(thread_init_data.5), oi(thread_init_data.6)); assert(chan_send_dt.log().drop_last() =~= chan_send_dt.log().take(1)); }
-//@before "return;" 2
-            proof { lemma_no_msgs(chan_send_dt.log().drop_last(), m, a, b); assert(chan_send_dt.log().drop_last() =~= chan_send_dt.log().take(1)); }
-//@before "return;" 3
-            proof { lemma_no_msgs(chan_send_dt.log().drop_last(), m, a, b); assert(chan_send_dt.log().drop_last() =~= chan_send_dt.log().take(1)); }
-//@before "let result: ResultS3SyslineFind = syslogproc.find_sysline_between_datetime_filters(0);"
+    proof { assert(m == file_model(tid0.0) && a == oi(tid0.5) && b == oi(tid0.6)); }
+//@at_entry
+    let ghost tid0 = thread_init_data;
     let ghost mut cursor: int = 0;
+    let ghost mut log_prev: Seq<ChanDatum> = Seq::empty();
+//@before "return;" *
+            proof {
+                // one hint for every early return: either nothing but FileInfo was sent before the closing FileSummary, or the
+                // log before the FileSummary is the one recorded in `log_prev`
+                let m_ = file_model(tid0.0); let a_ = oi(tid0.5); let b_ = oi(tid0.6);
+                if chan_send_dt.log().len() == 2 {
+                    lemma_no_msgs(chan_send_dt.log().drop_last(), m_, a_, b_); assert(chan_send_dt.log().drop_last() =~= chan_send_dt.log().take(1));
+                } else if chan_send_dt.log().len() > 2 {
+                    assert(chan_send_dt.log().drop_last() =~= log_prev); lemma_cursor(log_prev, m_, a_, b_, cursor);
+                }
+            }
+//@before "let result: ResultS3SyslineFind = syslogproc.find_sysline_between_datetime_filters(0);"
     let ghost log1 = chan_send_dt.log();
     proof { lemma_no_msgs(log1, m, a, b); lemma_first_from(m, a, 0, 0); }
 //@before "if is_last {" 1
@@ -295,9 +317,7 @@ pub open spec fn model_done(l: Seq<ChanDatum>, m: Seq<SL>, a: Option<int>, b: Op
         }
     }
 //@before "let summary_opt: SummaryOpt"
-        let ghost log_prev = chan_send_dt.log();
-//@before "return;" 4
-        proof { assert(chan_send_dt.log().drop_last() =~= log_prev); lemma_cursor(log_prev, m, a, b, cursor); }
+        proof { log_prev = chan_send_dt.log(); }
 //@loop 1
         invariant_except_break
             !sent_is_last, file_err is None,
